@@ -266,26 +266,37 @@ def _extrusion(model, rep):
             self.prisms = prisms
 
     class Z:
-        """other.p[0]: the levels"""
+        """other.p[0]: the levels - in stored order (symbols u_i) unless
+        sorted (z_0 < z_1 < ...)"""
         skv_isarray = True
+
+        def __init__(self, order="stored"):
+            self.order = order
 
         def skv_getitem(self, ix):
             if ix == 0:
                 return self
+            if isinstance(ix, slice) and ix == slice(None, None, -1):
+                return Z({"stored": "stored", "up": "down",
+                          "down": "up"}[self.order])
             raise Unsupported("levels index")
 
         def skv_len(self):
             return LEVELS
 
         def skv_iter(self):
-            return [Poly.sym(f"z{i}") for i in range(LEVELS)]
+            cap["walk"] = self.order
+            if self.order == "stored":
+                return [Poly.sym(f"u{i}") for i in range(LEVELS)]
+            r = [Poly.sym(f"z{i}") for i in range(LEVELS)]
+            return r if self.order == "up" else r[::-1]
 
     def hook(interp, name, args, kwargs, node):
         if name == "numpy.zeros":
             shp = args[0]
             return Pts([]) if shp[0] == 3 else Cells([])
         if name == "numpy.sort" and isinstance(args[0], Z):
-            return args[0]
+            return Z("up")
         if name == "numpy.array":
             return ("levelrow", args[0])
         if name == "numpy.vstack":
@@ -341,6 +352,26 @@ def _extrusion(model, rep):
        f"the connectivity of a layer must be shifted by the number of "
        f"*stored* points per level (max(t) + 1 differs when the base mesh "
        f"has unused trailing vertices)", fn.lineno)
+    lv = []
+    for l in layers:
+        row = l[2] if isinstance(l, tuple) and len(l) == 3 else None
+        rp = row[1] if isinstance(row, tuple) and row[0] == "levelrow" \
+            else None
+        if isinstance(rp, tuple) and rp[0] == "repeated" and \
+                len(rp[1]) == 1 and Poly.coerce(rp[2]) == N0:
+            lv.append(str(rp[1][0]))
+        else:
+            lv.append("?")
+    mono = lv in ([f"z{i}" for i in range(LEVELS)],
+                  [f"z{i}" for i in range(LEVELS)][::-1])
+    _v(rep, R3, mono, "MeshTri1.__mul__:levels",
+       "the layers are stacked over the sorted levels, each level repeated "
+       "for the n0 points of its block", "MeshTri1.__mul__",
+       f"extrusion: the blocks of points get the levels {lv} "
+       f"(u_i = levels in stored order, z_i = sorted): prisms are built "
+       f"between consecutive blocks, so with levels that are not monotone "
+       f"the layers overlap and the mesh does not fill [min z, max z] once",
+       fn.lineno)
 
 
 def _restrict(model, rep):
@@ -783,7 +814,7 @@ def run(model: Model, rep, tier: str) -> None:
     tag_rule(model, rep, "C18-R1",
              skip=lambda f: f.name in ("_uniform", "refined")
              or f.name.startswith("_adaptive"))
-    split_rules(model, rep, "C18-R2", "C18-R2", "C18-R2")
+    split_rules(model, rep, "C18-R2", "C18-R2", "C18-R2", "C18-R2")
     staged(lambda: _joins(model, rep), lambda: _restrict(model, rep),
            lambda: _transform_values(model, rep),
            lambda: _mirrored(model, rep),
@@ -797,6 +828,22 @@ def run(model: Model, rep, tier: str) -> None:
 _QU = "skfem/mesh/mesh_quad_1.py"
 _HE = "skfem/mesh/mesh_hex_1.py"
 MUTANTS = [
+    ("extrusion walks the levels in stored order",
+     ("skfem/mesh/mesh_tri_1.py",
+      "            for i, p in enumerate(np.sort(other.p[0])):",
+      "            for i, p in enumerate(other.p[0]):"), "C18-R3"),
+    ("prism split cuts one side face by the other rule",
+     ("skfem/mesh/mesh_wedge_1.py",
+      "            self.t[[1, 2, 3, 4]],\n            self.t[[2, 3, 4, 5]],",
+      "            self.t[[1, 2, 3, 5]],\n            self.t[[1, 3, 4, 5]],"),
+     "C18-R2"),
+    ("hexahedron split into five tetrahedra (opposite faces cut crosswise)",
+     (_HE, "            self.t[[0, 1, 3, 4]],\n            self.t[[0, 3, 2, "
+      "4]],\n            self.t[[2, 3, 4, 6]],\n            self.t[[3, 4, 6, "
+      "7]],\n            self.t[[3, 4, 5, 7]],\n            self.t[[1, 3, 4, "
+      "5]],", "            self.t[[7, 1, 2, 3]],\n            self.t[[0, 1, "
+      "2, 3]],\n            self.t[[4, 1, 2, 7]],\n            self.t[[5, 1, "
+      "3, 7]],\n            self.t[[6, 2, 3, 7]],"), "C18-R2"),
     ("mirrored reflects with the wrong sign of the normal component",
      (FM, "        p = p - 2. * np.dot(n, p - p0[:, None]) * n[:, None]",
       "        p = p + 2. * np.dot(n, p - p0[:, None]) * n[:, None]"),
@@ -898,6 +945,16 @@ MUTANTS = [
 _SWAP = ("        t0 = t[0, flip]\n        t1 = t[1, flip]\n"
          "        t[0, flip] = t1\n        t[1, flip] = t0\n")
 TWINS = [
+    ("extrusion walks the sorted levels from the top",
+     ("skfem/mesh/mesh_tri_1.py",
+      "            for i, p in enumerate(np.sort(other.p[0])):",
+      "            for i, p in enumerate(np.sort(other.p[0])[::-1]):")),
+    ("prism split cutting all side faces from the lower-numbered vertex",
+     ("skfem/mesh/mesh_wedge_1.py",
+      "            self.t[[0, 1, 2, 3]],\n            self.t[[1, 2, 3, 4]],\n"
+      "            self.t[[2, 3, 4, 5]],",
+      "            self.t[[0, 1, 2, 5]],\n            self.t[[0, 1, 5, 4]],\n"
+      "            self.t[[0, 4, 5, 3]],")),
     ("mirrored written in plane-offset form with the unit normal",
      (FM, "        n = n / np.linalg.norm(n)\n        p = p - 2. * np.dot(n, "
       "p - p0[:, None]) * n[:, None]",
